@@ -1623,3 +1623,157 @@ func runNX1(c *load.Ctx, r *report.RuleResult) {
 	}
 	r.OK("number-error|reach", c.Pos(root.Pos()), fmt.Sprintf("%d functions reachable from NewNumber examined", len(reach)))
 }
+
+func init() {
+	register(&Rule{ID: "OR-8", Min: 1, Run: runOR8,
+		Doc: "a node keeps its allOf rule until its parents have been added: in allOfConstraintCompiler.processNode the call that expands the parents (extend) dominates the removal of the allOf rule (DeleteConstraint) — the schema under check is not in the in-progress set, so an allOf cycle that passes through it is noticed only because, when the expansion comes back to its root, the rule is still there and runs into the parent in progress; removing the rule first lets such a cycle pass (error 703 lost)"})
+}
+
+func runOR8(c *load.Ctx, r *report.RuleResult) {
+	fn := c.Func(pkgLoader, "allOfConstraintCompiler.processNode")
+	extend := c.Func(pkgLoader, "allOfConstraintCompiler.extend")
+	key := "order|extend-before-delete-allOf"
+	if fn == nil || extend == nil {
+		r.Unk("anchor|loader.allOfConstraintCompiler.processNode", "", "processNode / extend not found")
+		return
+	}
+	allOfConst := int64(-1)
+	if p := c.Pkg(pkgConstraint); p != nil {
+		if k, ok := p.Types.Scope().Lookup("AllOfConstraintType").(*types.Const); ok {
+			if v, exact := constant.Int64Val(k.Val()); exact {
+				allOfConst = v
+			}
+		}
+	}
+	var ext []*ssa.Call
+	var del []ssa.Instruction
+	for _, b := range fn.Blocks {
+		for _, ins := range b.Instrs {
+			call, ok := ins.(*ssa.Call)
+			if !ok {
+				continue
+			}
+			if call.Call.StaticCallee() == extend {
+				ext = append(ext, call)
+			}
+			name := ""
+			if call.Call.IsInvoke() {
+				name = call.Call.Method.Name()
+			} else if sc := call.Call.StaticCallee(); sc != nil {
+				name = sc.Name()
+			}
+			if name == "DeleteConstraint" && len(call.Call.Args) > 0 {
+				if k, ok := call.Call.Args[len(call.Call.Args)-1].(*ssa.Const); ok && k.Value != nil && k.Int64() == allOfConst {
+					del = append(del, call)
+				}
+			}
+		}
+	}
+	switch {
+	case len(ext) == 0:
+		r.Bad(key, c.Pos(fn.Pos()), "processNode does not expand the parents of an allOf rule")
+	case len(del) == 0:
+		r.OK(key, c.Pos(fn.Pos()), "the allOf rule is not removed in processNode")
+	default:
+		for _, d := range del {
+			ok := false
+			for _, e := range ext {
+				if dominatesInstr(e, d) {
+					ok = true
+				}
+			}
+			if !ok {
+				r.Bad(key, c.Pos(d.Pos()), "the allOf rule is removed from the node before (or without) its parents having been added: when the expansion of a parent comes back to this node — the root of the schema under check is not in the in-progress set — nothing is left to expand, and the cycle passes")
+				return
+			}
+		}
+		r.OK(key, c.Pos(del[0].Pos()), "extend dominates the removal of the allOf rule")
+	}
+}
+
+func init() {
+	register(&Rule{ID: "EN-1", Min: 2, Run: runEN1,
+		Doc: "the value list of an enum rule only grows, one entry per literal or standalone comment: in rules/enum every store to Enum.values is an append onto the whole current list, and the only field of an entry written afterwards is its Comment — an entry is never removed, replaced or re-ordered, so Values() and GetAST() list the literals in source order"})
+}
+
+func runEN1(c *load.Ctx, r *report.RuleResult) {
+	enumT := namedType(c, "rules/enum", "Enum")
+	if enumT == nil {
+		r.Unk("anchor|enum.Enum", "", "type not found")
+		return
+	}
+	st, _ := enumT.Underlying().(*types.Struct)
+	vi := -1
+	for i := 0; st != nil && i < st.NumFields(); i++ {
+		if st.Field(i).Name() == "values" {
+			vi = i
+		}
+	}
+	if vi < 0 {
+		r.Unk("anchor|enum.Enum.values", "", "field not found")
+		return
+	}
+	isValuesAddr := func(v ssa.Value) bool {
+		fa, ok := v.(*ssa.FieldAddr)
+		return ok && fa.Field == vi && types.Identical(derefType(fa.X.Type()), enumT)
+	}
+	isValuesLoad := func(v ssa.Value) bool {
+		u, ok := v.(*ssa.UnOp)
+		return ok && u.Op == token.MUL && isValuesAddr(u.X)
+	}
+	stores, elemWrites := 0, 0
+	for _, fn := range c.ModuleFunctions() {
+		if load.FuncPkgRel(fn) != "rules/enum" {
+			continue
+		}
+		for _, b := range fn.Blocks {
+			for _, ins := range b.Instrs {
+				sto, ok := ins.(*ssa.Store)
+				if !ok {
+					continue
+				}
+				key := "enum-values|" + load.FuncKey(fn)
+				if isValuesAddr(sto.Addr) {
+					stores++
+					call, ok := sto.Val.(*ssa.Call)
+					bi, _ := func() (*ssa.Builtin, bool) {
+						if !ok {
+							return nil, false
+						}
+						b, ok2 := call.Call.Value.(*ssa.Builtin)
+						return b, ok2
+					}()
+					switch {
+					case bi == nil || bi.Name() != "append":
+						r.Bad(key, c.Pos(sto.Pos()), "Enum.values is replaced by "+describeValue(sto.Val)+", not extended by an append")
+					case !isValuesLoad(call.Call.Args[0]):
+						r.Bad(key, c.Pos(sto.Pos()), "Enum.values is rebuilt by appending onto "+describeValue(call.Call.Args[0])+" instead of onto the whole current list: entries read earlier are dropped or moved")
+					default:
+						r.OK(key, c.Pos(sto.Pos()), "append onto the whole list")
+					}
+					continue
+				}
+				// a write into an entry of the list
+				if fa, ok := sto.Addr.(*ssa.FieldAddr); ok {
+					if ia, ok := fa.X.(*ssa.IndexAddr); ok && isValuesLoad(ia.X) {
+						elemWrites++
+						fname := fieldName(fa.X.Type(), fa.Field)
+						k2 := "enum-entry|" + load.FuncKey(fn) + "|" + fname
+						if fname == "Comment" {
+							r.OK(k2, c.Pos(sto.Pos()), "the note of an entry is filled in")
+						} else {
+							r.Bad(k2, c.Pos(sto.Pos()), "field "+fname+" of an entry already in the list is overwritten")
+						}
+					}
+				} else if ia, ok := sto.Addr.(*ssa.IndexAddr); ok && isValuesLoad(ia.X) {
+					r.Bad("enum-entry|"+load.FuncKey(fn)+"|whole", c.Pos(sto.Pos()), "an entry already in the list is replaced")
+				}
+			}
+		}
+	}
+	if stores == 0 {
+		r.Bad("enum-values|none", "", "nothing stores into Enum.values")
+	}
+	r.Stat("stores", stores)
+	r.Stat("entry_writes", elemWrites)
+}
